@@ -6,6 +6,8 @@ Runtime monitor over repeated real `python -m ford` runs of the same generated p
   * PYTHONHASHSEED (several values),
   * the order in which the file system enumerates directory entries (os.scandir/os.listdir permuted by an
     injected sitecustomize; exhaustive over the permutations for flat projects with <= 4 files at the thorough tier),
+  * the memory layout of the process (heap noise allocated before FORD starts, PYTHONMALLOC=malloc: identity hashes and the
+    iteration order of sets of objects change),
   * the number of worker processes (parallel 0 / 2 / 8; graphs embedded or in graph_dir),
   * the previous content of the output directory (absent / stale from another project / from the same project).
 Projects contain equally named entities in several files and modules, equal file basenames, generic interfaces
@@ -52,6 +54,8 @@ def build_project(seed, flat=False, nfiles=None):
         L = [f"module {m}", doc("see [zlabel] and [zother][] here" if i else "definition here\n!!\n!! [zlabel]: http://example.org/zlabel\n!! [zother]: http://example.org/zother\n!!\n!! *[ZABBR]: an abbreviation"), ]
         if i:
             L.append(f"use dm{sx}_{i - 1}")
+            L += [f"use dm{sx}_{j}, only: base_{j}" for j in range(i - 1)]
+            L += [f"use zz_unknown_lib_{i}", "use iso_c_binding", "use aa_unknown_lib", "use, intrinsic :: iso_fortran_env, only: int32"]
         L += ["implicit none", f"type{', extends(base_' + str(i - 1) + ')' if i else ''} :: base_{i}", doc("ZABBR text"), f"integer :: f{i}", doc(), f"end type base_{i}"]
         specs = [f"spec_{i}_{j}" for j in range(rng.randint(2, 4))]
         rng.shuffle(specs)
@@ -117,8 +121,12 @@ def tree_hash(out):
     return res
 
 
-def run(proj, hashseed="0", scan=None, timeout=600):
+def run(proj, hashseed="0", scan=None, timeout=600, noise=0, malloc=None):
     env = {"PYTHONHASHSEED": str(hashseed), "PYTHONPATH": AUDIT_DIR + ":" + core.REPO}
+    if noise:
+        env["VF_HEAP_NOISE"] = str(noise)
+    if malloc:
+        env["PYTHONMALLOC"] = malloc
     if scan is not None:
         env["VF_SCAN_ORDER"] = str(scan)
         env["VF_SCAN_ROOT"] = os.path.join(proj, "src")
@@ -224,7 +232,7 @@ def variant(arg):
             stale_other(root, proj, seed, opts_extra)
         if "parallel" in detail:
             set_option(proj, "parallel", detail["parallel"])
-        r = run(proj, hashseed=str(detail.get("hashseed", "0")), scan=detail.get("scan", 0))
+        r = run(proj, hashseed=str(detail.get("hashseed", "0")), scan=detail.get("scan", 0), noise=detail.get("heap_noise", 0), malloc=detail.get("malloc"))
         label = factor + " " + json.dumps(detail, sort_keys=True)
         if r["rc"] != 0:
             txt = (r["stderr"] or r["stdout"]).strip()
@@ -267,6 +275,9 @@ def variants_for(kind, n_src_entries):
     v += [("directory_enumeration_order", {"scan": k}) for k in ([1, 5] if kind == "quick" else [1, 2, 3, 5, 23, 119, 719])]
     v.append(("hash_seed_and_enumeration_order", {"hashseed": 9, "scan": 4}))
     v += [("worker_processes", {"parallel": p}) for p in (2, 8)]
+    v += [("memory_layout", {"heap_noise": 1}), ("memory_layout", {"heap_noise": 2, "malloc": "malloc"})]
+    if kind != "quick":
+        v += [("memory_layout", {"heap_noise": k}) for k in (3, 4, 5)]
     v.append(("stale_output_same_project", {}))
     v.append(("stale_output_other_project", {}))
     v.append(("control_identical_rerun", {}))
@@ -335,7 +346,7 @@ def main():
                     run_.violation(v["kf"], v["w"])
     finally:
         shutil.rmtree(refbase, ignore_errors=True)
-    run_.finish(floors={"evaluations": 8, "distinct_nontrivial": 8, "variant_runs_compared": 100, "variants_hash_seed": 20, "variants_directory_enumeration_order": 30, "variants_control_identical_rerun": 5,
+    run_.finish(floors={"evaluations": 8, "distinct_nontrivial": 8, "variant_runs_compared": 100, "variants_hash_seed": 20, "variants_directory_enumeration_order": 30, "variants_control_identical_rerun": 5, "variants_memory_layout": 10,
                         "variants_worker_processes": 10, "variants_stale_output_other_project": 5, "variants_stale_output_same_project": 5})
 
 
